@@ -140,7 +140,7 @@ def run(ctx):
                 continue        # re-encoding goes through the reference tokenizer, which normalises these away
         if any(ord(c) < 32 and c not in '\r\n' for c in text) or any(ord(c) > 126 for c in text):
             pass
-        case = {'map': e['file'], 'faults': kinds, 'charset': cs, 'k': ['c12', ctx.shard, k], 'text': text if len(text) < 8000 else None}
+        case = {'map': e['file'], 'faults': kinds, 'charset': cs, 'k': ['c12', ctx.shard, k], 'text': text if len(text) < 150000 else None}
         n += judge(ctx, text, cs, case, sigs, k_enc)
         ctx.sample({'map': e['file'], 'faults': kinds, 'text_head': text[:300]})
     ctx.case(n=n, sigs=sorted(sigs))
